@@ -16,7 +16,7 @@ EPS = 2.3e-16
 
 def plan(tier):
     n = 320 if tier == 'quick' else 12000
-    return dict(suite_monitor=True, n_cases=n, shards=16, min_nontrivial=n // 3, min_hits={'freq': n // 2},
+    return dict(suite_monitor=True, n_cases=n, shards=16, min_nontrivial=n // 3, min_hits={'freq': n // 2}, min_tags={'src:panel_method': n // 40, 'src:assembly_free': n // 40, 'src:bay_free': n // 40},
                 watchdog_s=1500 if tier == 'quick' else 7200,
                 rule='random SPD pairs (K, M) sharing a random set of null rows/cols, sizes 6..%d, spectra spread over '
                      'decades / clustered within 0.1 rad/s / omega~1, 1..25 requested eigenvalues, both solver switches, '
@@ -62,8 +62,14 @@ def judge(c, K, M, ev, vecs, label, sort, k_req, sparse):
     npairs = min(len(ev), vecs.shape[1])
     c.expect(label + ' eigvecs rows', vecs.shape[0] == n, '%d != %d' % (vecs.shape[0], n))
     res_tol = max(RES_TOL, 1e3 * EPS * cond)
+    nK_ = np.abs(Kd).sum(axis=1).max(); nM_ = np.abs(Md).sum(axis=1).max()
+    fwd = np.zeros(npairs)      # first-order forward bound on omega: backward error x eigenvalue condition number / 2
     for i in range(npairs):
         w = complex(ev[i])
+        vr_ = np.real(np.asarray(vecs[:, i]))
+        if w.real > 0 and vr_.any():
+            kap = (nK_ + w.real ** 2 * nM_) * float(vr_ @ vr_) / (w.real ** 2 * float(vr_ @ Md @ vr_) + 1e-300)
+            fwd[i] = (2 * resid(Kd, Md, w.real, vr_) + 100 * n * EPS) * kap / 2
         c.judge(label + ' frequency real', abs(w.imag), 1e-7 * abs(w) + 1e-300)
         c.expect(label + ' frequency positive', w.real > 0, 'omega[%d]=%r' % (i, w))
         v = np.asarray(vecs[:, i])
@@ -88,7 +94,8 @@ def judge(c, K, M, ev, vecs, label, sort, k_req, sparse):
         nj = min(npairs, k_req, ref.size)
         if sparse or sort:
             got = np.sort(np.real(ev[:npairs]))[:nj] if not sparse else np.sort(np.real(ev[:nj]))
-            vt = VAL_TOL + 10 * EPS * cond
+            # "to solver precision" for a value: the measured backward error of the returned pairs times their condition number
+            vt = VAL_TOL + 10 * EPS * cond + (float(np.sort(fwd[:npairs])[:nj].max()) if nj and not sparse else float(fwd[:nj].max()) if nj else 0.)
             c.judge(label + ' lowest frequencies equal reference', (np.abs(got - ref[:nj]) / ref[:nj]).max() if nj else 0., vt,
                     data={'got': got[:6], 'ref': ref[:6]})
     return ref
@@ -124,7 +131,7 @@ def random_pair(rng, tier):
 
 def run_case(rng, tier, idx):
     from compmech.analysis import freq
-    mode = 'random' if rng.random() < 0.8 else ('panel_free' if rng.random() < 0.5 else 'panel_method')
+    mode = 'random' if idx % 10 < 7 else ['panel_free', 'panel_method', 'assembly_free', 'bay_free'][(idx // 10 * 3 + idx % 10 - 7) % 4]
     sparse = bool(rng.random() < 0.5)
     sort = bool(rng.random() < 0.8)
     reduced = bool(rng.random() < 0.15)
@@ -177,6 +184,29 @@ def run_case(rng, tier, idx):
             except Exception as e:
                 c.info['otherpath_rejected'] = repr(e)[:80]
             monitors.drain('freq')
+        return c
+    if mode in ('assembly_free', 'bay_free'):
+        which = mode.split('_')[0]
+        k = int(rng.integers(1, 8))
+        try:
+            K, M, desc = gen.structure_matrices(rng, which, 'kM')
+        except Exception as e:
+            return Case({'src': which}).reject('%s building %s: %s' % (type(e).__name__, which, str(e)[:100]))
+        k = min(k, max(1, len(gen.active_dofs(M)) - 2))
+        desc.update(k=k, sparse_solver=sparse, sort=sort)
+        c = Case(desc)
+        c.tag('src:' + mode, 'sparse' if sparse else 'dense', 'sort' if sort else 'nosort')
+        monitors.drain('freq')
+        try:
+            freq(K, M, tol=0, sparse_solver=sparse, silent=True, sort=sort, num_eigvalues=k)
+        except Exception as e:
+            return c.reject('%s in freq on %s matrices: %s' % (type(e).__name__, which, str(e)[:100]))
+        obs = monitors.drain('freq')
+        c.hit('freq', len(obs))
+        ev, vecs = obs[-1]['result']
+        ref = judge(c, K, M, ev, vecs, mode, sort, k, sparse)
+        if ref is not None:
+            c.nontrivial = min(len(ev), vecs.shape[1]) >= 2
         return c
     # package matrices
     fl = gen.flags(rng, style=str(rng.choice(['ss', 'clamped', 'binary', 'mixed'])))
